@@ -17,8 +17,36 @@ pub mod rvx;
 pub mod sys;
 pub mod unwind;
 
+static LAST_PANIC: std::sync::Mutex<String> = std::sync::Mutex::new(String::new());
+
+/// No panic messages on stderr (panics of the code under test are data and there are thousands of them); the
+/// place and message of the LAST panic are remembered for `run_main`.
 pub fn quiet_panics() {
-    std::panic::set_hook(Box::new(|_| {}));
+    std::panic::set_hook(Box::new(|info| {
+        let loc = info.location().map(|l| format!("{}:{}", l.file(), l.line())).unwrap_or_default();
+        let msg = if let Some(s) = info.payload().downcast_ref::<&str>() {
+            s.to_string()
+        } else if let Some(s) = info.payload().downcast_ref::<String>() {
+            s.clone()
+        } else {
+            "(non-string payload)".to_string()
+        };
+        if let Ok(mut g) = LAST_PANIC.try_lock() {
+            *g = format!("{} {}", loc, msg.replace('\n', " "));
+        }
+    }));
+}
+
+/// Runs a harness binary's main; a panic that escapes it is reported on stdout as
+/// `HARNESS-PANIC <file:line> <message>` (exit code 101): the caller decides from the place whether the code
+/// under test or the harness panicked where nobody expected it.
+pub fn run_main(f: impl FnOnce()) {
+    let r = std::panic::catch_unwind(std::panic::AssertUnwindSafe(f));
+    if r.is_err() {
+        let last = LAST_PANIC.lock().map(|g| g.clone()).unwrap_or_default();
+        println!("HARNESS-PANIC {}", last);
+        std::process::exit(101);
+    }
 }
 
 /// Minimal `--key value` argument parser.
